@@ -428,7 +428,12 @@ func checkC16(x *X, c *Case, strict bool) *Outcome {
 				// runs under the safety budget of the harness)
 				rb := refpeg.Eval(g, c.Input, refOpts(&cc))
 				if !rb.OverBudget && knownExclusion(x, rb, strict) == "" {
-					if rb.Panicked != resp.Panicked || (rb.Panicked && !samePanic(rb.PanicVal, resp.PanicVal, ctx)) {
+					// (an exhausted budget may end in the budget error returned or escaping: the
+					// property only asks for it to be reported; a panic of a code block must escape)
+					budgetEnd := rb.Panicked && fmt.Sprint(rb.PanicVal) == maxExprMsg
+					if budgetEnd && !resp.Panicked && hasMaxExprErr(resp) && resp.Value == nil {
+						// reported as an error: fine
+					} else if rb.Panicked != resp.Panicked || (rb.Panicked && !samePanic(rb.PanicVal, resp.PanicVal, ctx)) {
 						o.Viol = viol(pk, &cc, "recover_off_outcome", fmt.Sprintf("MaxExpressions(%d), Recover(false): want escaping panic=%v (%v), got %v (%v)", budget, rb.Panicked, rb.PanicVal, resp.Panicked, resp.PanicVal), describeRef(rb), describeResp(resp))
 						return o
 					}
